@@ -33,8 +33,10 @@ BACKOFFS = [
     lambda n: ['fib', n, '1', '1'],               # the defaults: multiplier 1, max_value 1
     lambda n: ['fib', n, '1/4', None],
     lambda n: ['fib', n, '3/2', '4'],
+    lambda n: ['exp', n, '4', '1/2', '3'],        # a DECAYING backoff capped below its first delay: later delays fall under the cap again
+    lambda n: ['exp', n, '1', '2', '4'],
 ]
-JITTERS = [[], ['1/8', '1/4', '0', '1/2', '1/8']]
+JITTERS = [[], ['1/8', '1/4', '0', '1/2', '1/8'], ['0', '5/2', '-1', '0', '1/2']]     # incl. a jitter that pushes one delay over the cap and the next under it
 SETS = [(None, None), ([], []), ([LISTED_CODE], [0]), ([LISTED_CODE, 7], [0, 2]), ([LISTED_CODE], None), (None, [0]), ([LISTED_CODE], [9]), ([LISTED_CODE], [10])]
 
 
